@@ -466,3 +466,226 @@ Proof.
       * rewrite (upsert_fresh _ _ _ _ F3), map_app, in_app_iff. cbn [map fst In]. intuition congruence.
       * intuition.
 Qed.
+
+(* ---------------------------------------------------------------- namespaces from the package chain *)
+
+Definition ns_step (pkgs : list (string * rpackage)) (cls : list (string * rclass)) (path : string) : option (list (string * rclass)) :=
+  let parts := split_on ":" path in
+  ns <- foldM (fun acc pid => p <- lookup String.eqb pid pkgs ;; Some (acc ++ rk_name p ++ "::")) (removelast_str parts) "" ;;
+  let ns' := rstrip_char ":" ns in
+  match lookup String.eqb (last_of parts) cls with
+  | Some c => Some (upsert String.eqb (last_of parts) (set_ns c ns') cls)
+  | None => Some cls
+  end.
+
+Lemma namespaces_flat : forall d,
+  namespaces d = foldM (ns_step (rd_packages d)) (flat_map (fun kp => rk_classes (snd kp)) (rd_packages d)) (rd_classes d).
+Proof. intros d. unfold namespaces. rewrite <- sl_foldM_flat. reflexivity. Qed.
+
+Lemma pkg_paths : forall l, flat_map (fun kp : string * rpackage => rk_classes (snd kp)) (pkg_entries rpackage_of l) = map path_text (paths_in l).
+Proof.
+  induction l as [|[sid e] r IH]; [reflexivity|].
+  unfold pkg_entries, paths_in in *. cbn [flat_map snd]. rewrite flat_map_app, map_app, IH.
+  destruct e; try reflexivity. cbn [flat_map snd rpackage_of rk_classes]. rewrite app_nil_r. reflexivity.
+Qed.
+
+(* the classes with namespaces N (by class id) *)
+Definition apply_ns (N : string -> string) (L : list (string * rclass)) : list (string * rclass) :=
+  map (fun kc => (fst kc, set_ns (snd kc) (N (fst kc)))) L.
+
+Lemma set_ns_twice : forall c a b, set_ns (set_ns c a) b = set_ns c b.
+Proof. intros c a b. destruct c; reflexivity. Qed.
+
+Lemma apply_ns_ext : forall N N' L, (forall k, In k (map fst L) -> N k = N' k) -> apply_ns N L = apply_ns N' L.
+Proof.
+  intros N N' L H. unfold apply_ns. apply map_ext_in. intros [k c] Hin. cbn [fst snd]. rewrite (H k); [reflexivity|].
+  apply (in_map fst) in Hin. exact Hin.
+Qed.
+
+Lemma lookup_none_notin : forall (V : Type) k (L : list (string * V)), lookup String.eqb k L = None -> ~ In k (map fst L).
+Proof.
+  intros V k L. induction L as [|[k0 v0] r IH]; intros H; [intros []|].
+  cbn [lookup] in H. destruct (String.eqb k k0) eqn:E; [discriminate|].
+  cbn [map fst In]. intros [H1|H1]; [subst k0; rewrite String.eqb_refl in E; discriminate | exact (IH H H1)].
+Qed.
+
+Lemma keys_apply_ns : forall N L, map fst (apply_ns N L) = map fst L.
+Proof. intros N L. unfold apply_ns. rewrite map_map. reflexivity. Qed.
+
+Lemma upsert_apply_ns : forall N L k c' ns', NoDup (map fst L) -> lookup String.eqb k (apply_ns N L) = Some c' ->
+  upsert String.eqb k (set_ns c' ns') (apply_ns N L) = apply_ns (fun id => if String.eqb id k then ns' else N id) L.
+Proof.
+  intros N L k c' ns'. induction L as [|[k0 c0] r IH]; intros Hnd Hl; [discriminate|].
+  cbn [map fst] in Hnd. inversion Hnd as [|kk ks Hni Hnd']; subst.
+  unfold apply_ns in *. cbn [map fst snd] in *. cbn [lookup] in Hl. cbn [upsert].
+  destruct (String.eqb k k0) eqn:E.
+  - apply String.eqb_eq in E. subst k0. inversion Hl; subst. rewrite String.eqb_refl, set_ns_twice. f_equal.
+    apply map_ext_in. intros [k1 c1] Hin. cbn [fst snd].
+    destruct (String.eqb k1 k) eqn:E1; [|reflexivity].
+    apply String.eqb_eq in E1. subst k1. exfalso. apply Hni. apply (in_map fst) in Hin. exact Hin.
+  - rewrite (String.eqb_sym k0 k), E. f_equal. apply IH; assumption.
+Qed.
+
+Definition nsname (D : sdiagram) (p : list string) : string := Uml.join "::" (map (fun i => ostr (name_of D i)) (removelast p)).
+Definition upd (D : sdiagram) (N : string -> string) (p : list string) : string -> string :=
+  fun id => if String.eqb id (last p "") then nsname D p else N id.
+
+Definition path_good (D : sdiagram) (p : list string) : Prop :=
+  p <> [] /\ forallb (no_char ":") p = true
+  /\ forall pid, In pid (removelast p) ->
+       exists k, lookup String.eqb pid (pkg_entries rpackage_of (sd_shapes D)) = Some (rpackage_of k)
+                 /\ ostr (name_of D pid) = sk_name k /\ ident (sk_name k) = true.
+
+Lemma ns_fold : forall (pkgs : list (string * rpackage)) (nm : string -> string) ids acc,
+  (forall pid, In pid ids -> exists pk, lookup String.eqb pid pkgs = Some pk /\ rk_name pk = nm pid) ->
+  foldM (fun acc pid => p <- lookup String.eqb pid pkgs ;; Some (acc ++ rk_name p ++ "::")) ids acc = Some (acc ++ catn (map nm ids)).
+Proof.
+  intros pkgs nm ids. induction ids as [|x r IH]; intros acc H.
+  - cbn [foldM map catn]. rewrite sl_app_nil_r. reflexivity.
+  - cbn [foldM map catn]. destruct (H x (or_introl eq_refl)) as [pk [Hl Hn]]. rewrite Hl. cbn [bind]. rewrite Hn.
+    rewrite IH by (intros pid Hp; apply H; right; exact Hp). rewrite !sl_app_assoc. reflexivity.
+Qed.
+
+Lemma ident_parts : forall s, ident s = true -> no_char ":" s = true /\ negb (String.eqb s "") = true.
+Proof.
+  intros s H. unfold ident in H. apply andb_true_iff in H. destruct H as [H H2]. apply andb_true_iff in H. destruct H as [_ H1].
+  split; assumption.
+Qed.
+
+Lemma ns_step_apply : forall (D : sdiagram) N L p, path_good D p -> NoDup (map fst L) ->
+  ns_step (pkg_entries rpackage_of (sd_shapes D)) (apply_ns N L) (path_text p) = Some (apply_ns (upd D N p) L).
+Proof.
+  intros D N L p [Hne [Hnc Hpk]] Hnd. unfold ns_step, path_text. rewrite (sl_split_join p Hne Hnc), sl_removelast_str.
+  rewrite (ns_fold _ (fun i => ostr (name_of D i)) (removelast p) "").
+  2:{ intros pid Hp. destruct (Hpk pid Hp) as [k [Hl [Hn _]]]. exists (rpackage_of k). split; [exact Hl|]. rewrite Hn. reflexivity. }
+  cbn [bind append]. rewrite sl_rstrip_catn.
+  2:{ apply forallb_forall. intros n Hn. apply in_map_iff in Hn. destruct Hn as [pid [<- Hp]].
+      destruct (Hpk pid Hp) as [k [_ [Hn Hi]]]. rewrite Hn. destruct (ident_parts _ Hi) as [A B]. rewrite A, B. reflexivity. }
+  unfold last_of. fold (nsname D p).
+  destruct (lookup String.eqb (last p "") (apply_ns N L)) as [c|] eqn:Hl.
+  - rewrite (upsert_apply_ns N L _ c (nsname D p) Hnd Hl). reflexivity.
+  - f_equal. apply apply_ns_ext. intros k Hk. unfold upd.
+    destruct (String.eqb k (last p "")) eqn:E; [|reflexivity].
+    apply String.eqb_eq in E. subst k. apply lookup_none_notin in Hl. rewrite keys_apply_ns in Hl. contradiction.
+Qed.
+
+Lemma ns_fold_paths : forall (D : sdiagram) L paths N, (forall p, In p paths -> path_good D p) -> NoDup (map fst L) ->
+  foldM (ns_step (pkg_entries rpackage_of (sd_shapes D))) (map path_text paths) (apply_ns N L)
+  = Some (apply_ns (fold_left (upd D) paths N) L).
+Proof.
+  intros D L paths. induction paths as [|p r IH]; intros N Hg Hnd; [reflexivity|].
+  cbn [map foldM fold_left]. rewrite (ns_step_apply D N L p (Hg p (or_introl eq_refl)) Hnd). cbn [bind].
+  apply IH; [|exact Hnd]. intros q Hq. apply Hg. right. exact Hq.
+Qed.
+
+Lemma upd_final : forall (D : sdiagram) paths N k, NoDup (map (fun p => last p "") paths) ->
+  fold_left (upd D) paths N k
+  = match find (fun p => String.eqb (last p "") k) paths with Some p => nsname D p | None => N k end.
+Proof.
+  intros D paths. induction paths as [|p r IH]; intros N k Hnd; [reflexivity|].
+  cbn [map] in Hnd. inversion Hnd as [|kk ks Hni Hnd']; subst.
+  cbn [fold_left find]. rewrite (IH _ k Hnd').
+  destruct (String.eqb (last p "") k) eqn:E.
+  - destruct (find (fun p0 => String.eqb (last p0 "") k) r) as [q|] eqn:F.
+    + exfalso. apply find_some in F. destruct F as [Hq Eq]. apply String.eqb_eq in E. apply String.eqb_eq in Eq.
+      apply Hni. rewrite E, <- Eq. apply (in_map (fun p => last p "")). exact Hq.
+    + unfold upd. rewrite String.eqb_sym, E. reflexivity.
+  - destruct (find (fun p0 => String.eqb (last p0 "") k) r) as [q|]; [reflexivity|].
+    unfold upd. rewrite String.eqb_sym, E. reflexivity.
+Qed.
+
+Lemma name_of_shape : forall (D : sdiagram) se, NoDup (map sid_of (sd_shapes D)) -> In se (sd_shapes D) ->
+  name_of D (elem_id (snd se)) = Some (elem_name (snd se)).
+Proof.
+  intros D se Hnd Hin. unfold name_of.
+  change (find (fun se0 : string * selem => String.eqb (elem_id (snd se0)) (elem_id (snd se))) (sd_shapes D))
+    with (find (fun y => String.eqb (sid_of y) (sid_of se)) (sd_shapes D)).
+  rewrite (sl_find_unique _ sid_of _ se Hnd Hin). reflexivity.
+Qed.
+
+Lemma all_paths_good : forall D : sdiagram, sdiagram_ok D = true -> forall p, In p (all_paths D) -> path_good D p.
+Proof.
+  intros D Hok p Hp. destruct (sok_split D Hok) as [Hsh [Hnd _]]. rewrite forallb_forall in Hsh.
+  unfold all_paths in Hp. apply in_flat_map in Hp. destruct Hp as [[sid0 e0] [Hin0 Hp]]. cbn [snd] in Hp.
+  destruct e0 as [c|k0|i|a b c0 d e1]; try (destruct Hp).
+  pose proof (Hsh _ Hin0) as Hk0. unfold shape_ok in Hk0. cbn [snd] in Hk0. unfold package_ok in Hk0.
+  apply andb_true_iff in Hk0. destruct Hk0 as [Hk0 _]. apply andb_true_iff in Hk0. destruct Hk0 as [_ Hk0].
+  rewrite forallb_forall in Hk0. specialize (Hk0 p Hp).
+  apply andb_true_iff in Hk0. destruct Hk0 as [Hk0 Hpk]. apply andb_true_iff in Hk0. destruct Hk0 as [Hne Hid].
+  split; [|split].
+  - intro E. subst p. discriminate.
+  - apply forallb_forall. intros x Hx. rewrite forallb_forall in Hid. apply (ident_parts x (Hid x Hx)).
+  - intros pid Hpid. rewrite forallb_forall in Hpk. specialize (Hpk pid Hpid).
+    destruct (pkg_of_in_exists _ _ Hpk) as [k Hk]. exists k.
+    destruct (pkg_of_in_some _ _ _ Hk) as [Eid [sid Hin]].
+    split; [rewrite lookup_pkg_entries, Hk; reflexivity|].
+    split.
+    + pose proof (name_of_shape D (sid, EPackage k) Hnd Hin) as Hn. cbn [snd elem_id elem_name] in Hn. rewrite Eid in Hn. rewrite Hn. reflexivity.
+    + pose proof (Hsh _ Hin) as Hk1. unfold shape_ok in Hk1. cbn [snd] in Hk1. unfold package_ok in Hk1.
+      apply andb_true_iff in Hk1. destruct Hk1 as [Hk1 _]. apply andb_true_iff in Hk1. destruct Hk1 as [Hk1 _].
+      apply andb_true_iff in Hk1. destruct Hk1 as [_ Hk1]. exact Hk1.
+Qed.
+
+Lemma apply_ns_cls_entries : forall N (f : sclass -> rclass) l,
+  apply_ns N (cls_entries f l) = cls_entries (fun c => set_ns (f c) (N (sc_id c))) l.
+Proof.
+  intros N f l. induction l as [|[sid e] r IH]; [reflexivity|].
+  unfold apply_ns, cls_entries in *. cbn [flat_map snd]. rewrite map_app, IH. destruct e; reflexivity.
+Qed.
+
+Lemma set_ns_rclass_of : forall (D : sdiagram) c, set_ns (rclass0 D c) (ns_of D (sc_id c)) = rclass_of D c.
+Proof. intros D c. unfold rclass0. rewrite set_ns_twice. reflexivity. Qed.
+
+Lemma namespaces_shapes : forall D : sdiagram, sdiagram_ok D = true ->
+  namespaces {| rd_classes := cls_entries (rclass0 D) (sd_shapes D); rd_packages := pkg_entries rpackage_of (sd_shapes D);
+                rd_assocs := []; rd_inhs := inh_entries (fun i => rinh0 D i (si_real i)) (sd_shapes D) |}
+  = Some (cls_entries (rclass_of D) (sd_shapes D)).
+Proof.
+  intros D Hok. destruct (sok_split D Hok) as [_ [Hnd Hlp]].
+  rewrite namespaces_flat. cbn [rd_packages rd_classes]. rewrite pkg_paths.
+  change (paths_in (sd_shapes D)) with (all_paths D).
+  assert (E0 : cls_entries (rclass0 D) (sd_shapes D) = apply_ns (fun _ => "") (cls_entries (rclass0 D) (sd_shapes D))).
+  { rewrite apply_ns_cls_entries. apply cls_entries_ext. intros sid c _. unfold rclass0. rewrite set_ns_twice. reflexivity. }
+  rewrite E0.
+  rewrite (ns_fold_paths D _ (all_paths D) _ (all_paths_good D Hok) (nodup_cls_entries _ _ _ Hnd)).
+  f_equal. rewrite apply_ns_cls_entries. apply cls_entries_ext. intros sid c _.
+  rewrite (upd_final D (all_paths D) _ (sc_id c) Hlp).
+  rewrite <- (set_ns_rclass_of D c). reflexivity.
+Qed.
+
+(* ---------------------------------------------------------------- PostProjectParseFix *)
+
+Lemma fix_inh_shapes : forall (D : sdiagram) i,
+  fix_inh (cls_entries (rclass_of D) (sd_shapes D)) (rinh0 D i (si_real i)) = rinh_of D i.
+Proof.
+  intros D i. unfold fix_inh, rinh0, rinh_of. cbn [ri_id ri_real ri_from ri_from_id ri_to ri_to_id].
+  rewrite !lookup_cls_entries. unfold end_name, class_of_id. fold (class_of_in (sd_shapes D) (last (si_from i) "")).
+  fold (class_of_in (sd_shapes D) (last (si_to i) "")).
+  destruct (class_of_in (sd_shapes D) (last (si_from i) "")); destruct (class_of_in (sd_shapes D) (last (si_to i) "")); reflexivity.
+Qed.
+
+Lemma fix_inh_entries : forall (D : sdiagram) cls l,
+  (forall i, fix_inh cls (rinh0 D i (si_real i)) = rinh_of D i) ->
+  map (fun ki : string * rinh => (fst ki, fix_inh cls (snd ki))) (inh_entries (fun i => rinh0 D i (si_real i)) l) = inh_entries (rinh_of D) l.
+Proof.
+  intros D cls l H. induction l as [|[sid e] r IH]; [reflexivity|].
+  unfold inh_entries in *. cbn [flat_map snd]. rewrite map_app, IH. destruct e; try reflexivity.
+  cbn [map fst snd]. rewrite H. reflexivity.
+Qed.
+
+(* ---------------------------------------------------------------- the whole of LoadAndTest *)
+
+Lemma load_semantic : goal_class -> goal_package -> goal_inh ->
+  forall S : sdiagram, sdiagram_ok S = true ->
+  load_gen (get_model_element (cmelem_rows (tree_of S))) (struct_of (tree_of S)) (cdelem_rows (tree_of S)) = Some (rdiagram_of S).
+Proof.
+  intros GC GP GI D Hok. destruct (sok_split D Hok) as [_ [Hnd _]].
+  unfold load_gen. rewrite cdelem_rows_tree.
+  rewrite (fold_load_step GC GP GI D Hok (sd_shapes D) _ (incl_refl _)).
+  rewrite (fold_step_entries D (sd_shapes D) _ Hnd) by (intros x _; cbn [rd_classes rd_packages rd_inhs map]; intuition).
+  cbn [bind rd_classes rd_packages rd_assocs rd_inhs app].
+  rewrite (namespaces_shapes D Hok). cbn [bind].
+  rewrite (fix_inh_entries D _ (sd_shapes D) (fix_inh_shapes D)). reflexivity.
+Qed.
+
+Print Assumptions load_semantic.
